@@ -6,6 +6,7 @@ import (
 	"math"
 	"strconv"
 	"strings"
+	"sync/atomic"
 	"time"
 
 	"github.com/d5/tengo/v2/parser"
@@ -1322,7 +1323,17 @@ func (o *ObjectPtr) Equals(x Object) bool {
 type String struct {
 	ObjectImpl
 	Value   string
-	runeStr []rune
+	runeStr atomic.Value // []rune of Value, computed lazily; published atomically because constants are shared by concurrently running clones
+}
+
+// runes returns the cached rune slice of the string value.
+func (o *String) runes() []rune {
+	if r, ok := o.runeStr.Load().([]rune); ok {
+		return r
+	}
+	r := []rune(o.Value)
+	o.runeStr.Store(r)
+	return r
 }
 
 // TypeName returns the name of the type.
@@ -1416,25 +1427,21 @@ func (o *String) IndexGet(index Object) (res Object, err error) {
 		return
 	}
 	idxVal := int(intIdx.Value)
-	if o.runeStr == nil {
-		o.runeStr = []rune(o.Value)
-	}
-	if idxVal < 0 || idxVal >= len(o.runeStr) {
+	runeStr := o.runes()
+	if idxVal < 0 || idxVal >= len(runeStr) {
 		res = UndefinedValue
 		return
 	}
-	res = &Char{Value: o.runeStr[idxVal]}
+	res = &Char{Value: runeStr[idxVal]}
 	return
 }
 
 // Iterate creates a string iterator.
 func (o *String) Iterate() Iterator {
-	if o.runeStr == nil {
-		o.runeStr = []rune(o.Value)
-	}
+	runeStr := o.runes()
 	return &StringIterator{
-		v: o.runeStr,
-		l: len(o.runeStr),
+		v: runeStr,
+		l: len(runeStr),
 	}
 }
 
